@@ -192,14 +192,14 @@ func (rn *runner) check(root px.Context, w *World, toCoq bool) {
 func (rn *runner) run(root px.Context) {
 	cfg := rn.cfg
 	rng := lib.NewRng(cfg.Seed)
-	nRandom, randomCoq, exhCoq := 4000, 700, 250
+	nExh := exhaustiveCount()
+	nRandom, randomCoq, exhCoq := 4000, 700, 400
 	if cfg.Thorough() {
-		nRandom, randomCoq, exhCoq = 60000, 5000, 864
+		nRandom, randomCoq, exhCoq = 60000, 5000, nExh
 	}
 	for _, w := range corpusWorlds() {
 		rn.check(root, w, true)
 	}
-	nExh := 864
 	stride := nExh/exhCoq + 1
 	if nExh%exhCoq == 0 {
 		stride = nExh / exhCoq
